@@ -329,6 +329,22 @@ func RandBinding(r *rand.Rand, index am.S, p float64) rec.Binding {
 	return b
 }
 
+// PickForm chooses how a binding reaches the machine: with probability p one of
+// the HandlersBind(&struct) forms (the method forms only where the static types
+// exist: a full binding over A, B), otherwise the handler maps.
+func PickForm(r *rand.Rand, index am.S, bd rec.Binding, p float64) string {
+	if r.Float64() >= p {
+		return rec.FormMap
+	}
+	forms := append([]string{}, rec.DynForms...)
+	if rec.IsFullAB(index, bd) {
+		// twice: half of the struct-bound full bindings over A, B use methods
+		forms = append(forms, rec.StaticForms...)
+		forms = append(forms, rec.StaticForms...)
+	}
+	return forms[r.Intn(len(forms))]
+}
+
 func pickCalled(r *rand.Rand, names am.S, withExc bool) am.S {
 	pool := append(am.S{}, names...)
 	if withExc && r.Float64() < 0.08 {
